@@ -177,11 +177,35 @@ def _mon_vbswriter(m):
         def write(self, record, *a, **k):
             r = orig(self, record, *a, **k)
             vm = self.__dict__.get('_vm')
-            if vm is not None and isinstance(record, (bytes, bytearray)):
+            if vm is not None and isinstance(record, (bytes, bytearray)) and not vm.get('in_many'):
                 vm['recs'].append(bytes(record))
                 counters['C03:VbsWriter.write observed'] += 1
             return r
         return write
+
+    def write_many(orig):
+        # write_many is public too, and need not be built on write(): what it is handed is recorded as it is consumed
+        def write_many(self, records, *a, **k):
+            vm = self.__dict__.get('_vm')
+            if vm is None or vm.get('in_many') or type(self) is not cls:
+                return orig(self, records, *a, **k)
+            taken = []
+
+            def watched():
+                for rec in records:
+                    taken.append(rec)
+                    yield rec
+            vm['in_many'] = True
+            try:
+                return orig(self, watched(), *a, **k)
+            finally:
+                vm['in_many'] = False
+                if all(isinstance(x, (bytes, bytearray)) for x in taken):
+                    vm['recs'].extend(bytes(x) for x in taken)
+                    counters['C03:VbsWriter.write_many records observed'] += len(taken)
+                else:
+                    vm['start'] = None          # records of another type: this file is not judged
+        return write_many
 
     def close(orig):
         def close(self, *a, **k):
@@ -195,9 +219,10 @@ def _mon_vbswriter(m):
                 counters['C03:closes not observable'] += 1
                 return r
             out = snap[0][vm['start']:]
-            if type(self) is not cls:
+            if True:
                 # for a subclass (IpmWriter) write(bytes) is an internal seam, not part of its contract: it may or may not
-                # route its records through it.  What was seen there is used only if it accounts for every record in the
+                # route its records through it; and callers of the class itself may use entry points this monitor does not
+                # know (a rewrite may add some).  What was seen is used only if it accounts for every record in the
                 # file; otherwise the file is judged for being the canonical framing of the records it holds.
                 try:
                     in_file, _ = refb.vbs_records_in(refb.payload_stream(out) if vm['blocked'] else out, max_len=1 << 31)
@@ -224,6 +249,8 @@ def _mon_vbswriter(m):
         return close
     _patch(cls, '__init__', init)
     _patch(cls, 'write', write)
+    if hasattr(cls, 'write_many'):
+        _patch(cls, 'write_many', write_many)
     _patch(cls, 'close', close)
 
 
